@@ -355,6 +355,8 @@ class Reader:
                 self.consume_keyword("aligned")
                 self.consume_keyword("at")
                 alignment = self.parse_integer()
+                if size < 1:
+                    self.error(f"Cannot allocate {size} bytes")
                 ins = ir.Alloc(name, size, alignment)
             elif a == "load":
                 address = self.parse_value_ref()
@@ -368,7 +370,10 @@ class Reader:
                 ins = ir.FunctionCall(callee, arguments, name, ty)
             elif a == "literal":
                 data = self.consume("STRING")[1]
-                data = unhexlify(data)
+                try:
+                    data = unhexlify(data)
+                except ValueError:
+                    self.error(f"Invalid hexadecimal data '{data}'")
                 ins = ir.LiteralData(data, name)
             else:
                 raise NotImplementedError(a)
